@@ -75,7 +75,7 @@ theorem blockVisit_C (ok) (cfg : Config) (hcfg : CfgOk ok cfg) (hct : CfgTagsOk 
         simp only [if_true, Bool.and_eq_true, beq_iff_eq] at hg
         rw [blockVisit_block cfg opFuel f ss sp s hs]
         have hs0 : StOk (resetProvider s) := hs
-        have t0 : TS (resetProvider s) s := ⟨rfl, rfl⟩
+        have t0 : TS (resetProvider s) s := ⟨rfl, rfl, id⟩
         have h0 : ns (.block ss sp) = 0 := by simp [hg.1]
         have htg : targetsOk (.block ss sp) = true := (bad_zero_iff _).mp (by simp [hg.2])
         obtain ⟨ks', h1, hl, g, e, p⟩ := mapKids_spec' ok (visit cfg opFuel true)
